@@ -202,6 +202,11 @@ def run(ctx):
     ctx.stream("table-ops", "tableops", cases(ctx.rng("c18"), ctx.scale(400, 8000), ctx.scale(30, 60)), monitor=monitor, spec_exact=True,
                removable=lambda l: not l.startswith(("idioms", "new", "views")),
                classify=lambda l, o: "snaps=%d" % sum(1 for x in l if x == "snap"))
+    # "the table view reflects exactly the sequence of changes applied", observed through traffic: real table changed at run time
+    # (add/del rewriter and blacklist entry by index incl. beyond the end, modRoute, modDest) vs the model list operations
+    from .c01 import classify as _cl, nontrivial as _nt
+    ctx.stream("table-history", "table", tg.history_cases(ctx.rng("c18h"), ctx.scale(60, 1200), nbl=(1, 3), nrw=(1, 3)), classify=_cl, nontrivial=_nt,
+               spec_exact=True, timeout=ctx.scale(600, 3000), removable=tg.HISTORY_REMOVABLE)
     ctx.stream("hashing-route-ops", "chops", ch_cases(ctx.rng("c18ch"), ctx.scale(60, 1200)), model=False, monitor=ch_monitor, shrink=True,
                removable=lambda l: not l.startswith(("new", "views")),
                classify=lambda l, o: "snaps=%d" % sum(1 for x in l if x == "snap"))
